@@ -144,7 +144,7 @@ def gen_iprogram(rng, recursive=False, opts=None):
             if cand:
                 t = rng.choice(cand)
                 blocks[rec].append("arith sub %d %d k 1" % (t, a))
-                g = rng.choice([f, f, rng.randrange(1, nf)])
+                g = rng.choice([f, (f % (nf - 1)) + 1, (f % (nf - 1)) + 1, rng.randrange(1, nf)])
                 gin, gout = sigs[g]
                 candl = [v for v in range(nv) if v not in ins]
                 if len(candl) >= len(gout):
